@@ -731,8 +731,8 @@ class RFM(torch.nn.Module):
                 L = torch.linalg.cholesky(kernel_matrix, out=kernel_matrix)
                 out = torch.cholesky_solve(targets, L)
             elif self.solver == 'lu':
-                P, L, U = torch.linalg.lu(kernel_matrix)
-                out = torch.linalg.lu_solve(P, L, U, targets)
+                LU, pivots = torch.linalg.lu_factor(kernel_matrix)
+                out = torch.linalg.lu_solve(LU, pivots, targets)
         except Exception as e:
             if self.verbose:
                 print(f"Error in previous solver: {e}, re-trying with large regularization")
